@@ -246,6 +246,10 @@ func (c *C01Case) judge(ty reflect.Type, decName string) (verdict decodeVerdict)
 	if se != nil {
 		return
 	}
+	if !structural && ref.UnterminatedStringQuirk(c.Doc) && knownListed("C02-unterminated-string-escaped-quote-block-tail") {
+		verdict.known = "C02-unterminated-string-escaped-quote-block-tail"
+		return
+	}
 	if !structural {
 		verdict.err = fmt.Errorf("%s: structurally malformed document accepted by sonic (encoding/json: %v)", what, je)
 		return
@@ -436,22 +440,14 @@ func c01ClassifyErr(c *C01Case, ty reflect.Type, dec string, se error) string {
 	if id := quotedNumericFormFinding(c, ty); id != "" {
 		return id
 	}
-	if typeHasQuotedNumber(ty, 0) && knownListed("C01-string-option-number-stricter") {
-		toks, _ := ref.Scan(c.Doc)
-		for _, t := range toks {
-			if t.Kind != ref.TString {
-				continue
-			}
-			body, _ := ref.Unquote(c.Doc[t.Beg+1 : t.End-1])
-			if len(body) > 0 && (body[0] == '-' || body[0] >= '0' && body[0] <= '9') {
-				if nt, ok := ref.Scan(body); !ok || len(nt) != 1 || nt[0].Kind != ref.TNumber || nt[0].Beg != 0 || nt[0].End != len(body) {
-					return "C01-string-option-number-stricter"
-				}
-			}
-		}
+	if id := quotedNumberStricterFinding(c, ty); id != "" {
+		return id
 	}
 	if id := intKeyFormFinding(c, ty); id != "" {
 		return id
+	}
+	if dec == "jit" && knownListed("C20-double-unquote-lone-surrogate") && doubleSurrogateRe.Match(c.Doc) && typeHasQuotedString(ty, 0) {
+		return "C20-double-unquote-lone-surrogate"
 	}
 	nums := numberTokens(c.Doc)
 	if typeHasFloat32(ty) && knownListed("C19-float32-double-rounding") {
@@ -568,10 +564,30 @@ func (c *C01Case) classifyDupKeyMerge(ty reflect.Type, stdResult reflect.Value) 
 	if !knownListed("C01-map-duplicate-key-merge") || !typeHasMap(ty, 0) {
 		return ""
 	}
-	doc2, n := ref.DropEarlierDuplicates(c.Doc)
-	if n == 0 && len(c.Prefill) == 0 {
+	dups := ref.EarlierDuplicates(c.Doc)
+	if len(dups) == 0 && len(c.Prefill) == 0 {
 		return ""
 	}
+	if len(dups) > 24 {
+		dups = dups[:24]
+	}
+	// remove, one by one, every earlier duplicate that does not matter to encoding/json (map members:
+	// a later occurrence replaces the element; struct members merge and therefore do matter)
+	var drop []ref.DupRef
+	for _, d := range dups {
+		trial := append(append([]ref.DupRef(nil), drop...), d)
+		jd, err := c.newDest(ty)
+		if err != nil {
+			return ""
+		}
+		if stdDecode(ref.RemoveMembers(c.Doc, trial), jd.Interface(), c.Cfg) == nil && deepEq(stdResult, jd.Elem(), "", 0) == "" {
+			drop = trial
+		}
+	}
+	if len(drop) == 0 && len(c.Prefill) == 0 {
+		return ""
+	}
+	doc2 := ref.RemoveMembers(c.Doc, drop)
 	c2 := *c
 	c2.Doc = doc2
 	if len(c.Prefill) > 0 {
@@ -795,4 +811,67 @@ func intKeyFormFinding(c *C01Case, ty reflect.Type) string {
 		}
 	}
 	return ""
+}
+
+// quotedNumberStricterFinding: json.Number field tagged ,string with a payload that is not a plain
+// number literal (encoding/json stores such payloads unvalidated when they start with '-', a digit or a quote).
+func quotedNumberStricterFinding(c *C01Case, ty reflect.Type) string {
+	if !typeHasQuotedNumber(ty, 0) || !knownListed("C01-string-option-number-stricter") {
+		return ""
+	}
+	toks, _ := ref.Scan(c.Doc)
+	for _, t := range toks {
+		if t.Kind != ref.TString {
+			continue
+		}
+		body, _ := ref.Unquote(c.Doc[t.Beg+1 : t.End-1])
+		if len(body) > 0 && (body[0] == '-' || body[0] == '"' || body[0] >= '0' && body[0] <= '9') {
+			if nt, ok := ref.Scan(body); !ok || len(nt) != 1 || nt[0].Kind != ref.TNumber || nt[0].Beg != 0 || nt[0].End != len(body) {
+				return "C01-string-option-number-stricter"
+			}
+		}
+	}
+	return ""
+}
+
+// stringOptPayloadRejectedByStd reports whether some string literal of the document, taken as the payload
+// of some `,string` field of the type, makes encoding/json fail with "invalid use of ,string struct tag".
+func stringOptPayloadRejectedByStd(c *C01Case, ty reflect.Type) bool {
+	var fields []reflect.StructField
+	var collect func(t reflect.Type, depth int)
+	collect = func(t reflect.Type, depth int) {
+		if depth > 8 {
+			return
+		}
+		switch t.Kind() {
+		case reflect.Map, reflect.Ptr, reflect.Slice, reflect.Array:
+			collect(t.Elem(), depth+1)
+		case reflect.Struct:
+			for i := 0; i < t.NumField(); i++ {
+				f := t.Field(i)
+				if containsOpt(string(f.Tag), "string") && f.PkgPath == "" {
+					fields = append(fields, f)
+				}
+				collect(f.Type, depth+1)
+			}
+		}
+	}
+	collect(ty, 0)
+	if len(fields) == 0 {
+		return false
+	}
+	toks, _ := ref.Scan(c.Doc)
+	for _, f := range fields {
+		st := reflect.StructOf([]reflect.StructField{{Name: "F", Type: f.Type, Tag: `json:"f,string"`}})
+		for _, t := range toks {
+			if t.Kind != ref.TString {
+				continue
+			}
+			mini := append(append([]byte(`{"f":`), c.Doc[t.Beg:t.End]...), '}')
+			if err := json.Unmarshal(mini, reflect.New(st).Interface()); err != nil && strings.Contains(err.Error(), "invalid use of ,string struct tag") {
+				return true
+			}
+		}
+	}
+	return false
 }
